@@ -209,6 +209,15 @@ def stream(tier):
             continue
         delay = R.choice([300, 1200, 2600, 11000])
         slow = (R.randrange(1, len(puts) + 1), delay)
+        if i % 4 == 0:
+            # a backlog: dozens of lines are submitted while the peer accepts nothing (an adapter pushing a burst of updates to a
+            # slow connection) — whatever the writer does to catch up, every line reaches the wire once, in order
+            nb = R.choice([33, 40, 70, 130])
+            t0 = events[0][0]
+            events = [(t0, ("p", "first|line"))] + [(t0 + (j // 16), ("p", "burst%d|payload %d" % (j, R.randrange(1000)))) for j in range(nb)]
+            puts = [a[1] for t, a in events]
+            slow = (1, delay)
+            res.distribution["backlog_runs"] += 1
         writes, srv, errors = run_real(k0, events, horizon + delay + 30000, False, 65536, False, slow)
         out, rest = stream_lines(writes)
         res.traces += 1
@@ -229,7 +238,7 @@ def stream(tier):
 
 
 # ------------------------------------------------------------------ end to end: negotiated interval reaches the writer
-def run_server_e2e(kind, ka, hint, t_init_ms, horizon_ms, init_takes_ms=0):
+def run_server_e2e(kind, ka, hint, t_init_ms, horizon_ms, init_takes_ms=0, slow=None, concurrent=None):
     """A real server under the scheduler: init request (with hint) delivered at t_init, `initialize()` taking init_takes_ms of
     virtual time, then idle. Returns [(t_ms, line)], keep_alive afterwards, [(t_ms, interval the writer was given)]."""
     import lightstreamer_adapter.server as S
@@ -237,6 +246,8 @@ def run_server_e2e(kind, ka, hint, t_init_ms, horizon_ms, init_takes_ms=0):
     from lightstreamer_adapter.interfaces.metadata import MetadataProvider
     sched = shim.Sched(lambda names, ops: names[0])
     sock = shim.Socket()
+    if slow:
+        sock.slow_write_at, sock.slow_delay = slow[0], slow[1] / 1000
     saved = shim.install(sched, sock)
     changes = []
     orig_change = S._Sender.change_keep_alive
@@ -274,6 +285,8 @@ def run_server_e2e(kind, ka, hint, t_init_ms, horizon_ms, init_takes_ms=0):
         sched.spawn("D", proxy)
         h = sched.spawn("Z", horizon)
         sched.run(until=lambda: h.done)
+        if concurrent is not None:
+            concurrent.extend(e for ch in sched.chunks for e in ch["events"] if e[0] == "concurrent-send")
         return [(int(round(t * 1000)), b.decode()) for t, b in sock.sent], srv.keep_alive, changes
     finally:
         S._Sender.change_keep_alive = orig_change
@@ -337,6 +350,24 @@ def stream_e2e(tier):
                 res.violation("e2e-keepalive-while-disabled", "KEEPALIVE written although keepalives are disabled (keep_alive=%r, hint=%r)" % (ka, hint), inp)
         if i < 2:
             res.sample(dict(inp, written=out[:6], keep_alive_after=ka_after))
+    # a peer that accepts the very first bytes slowly (TLS handshake still settling, a congested link): the first line takes
+    # longer than the keepalive interval to go out. Whoever writes it, nobody else may write meanwhile — a KEEPALIVE (or any
+    # line) landing inside it splits it. No model comparison (the timed model writes instantaneously).
+    for i in range({"quick": 24, "search": 60, "thorough": 600}[tier]):
+        kind = R.choice(["data", "meta"])
+        ka = R.choice([0.25, 0.5, 1, 2.5])
+        delay = int(ka * 1000) * R.choice([2, 3]) + R.choice([0, 150])
+        conc = []
+        out, ka_after, changes = run_server_e2e(kind, ka, None, 100, delay + 4000, 0, slow=(R.choice([1, 1, 2]), delay), concurrent=conc)
+        res.traces += 1
+        res.distribution["slow_first_write_runs"] += 1
+        if conc:
+            res.violation("sender:two-writers", "while a line was taking %d ms to be accepted by the peer another thread wrote to the connection "
+                          "(%r): a keepalive or message can land inside the line" % (delay, conc[:2]),
+                          {"kind": kind, "keep_alive": ka, "slow_write": delay})
+        lines = "".join(l for _, l in out).split("\r\n")
+        if lines and lines[0] and not lines[0].startswith("1|RAC|"):
+            res.violation("sender:first-line", "first line written is %r" % lines[0][:60], {"kind": kind, "keep_alive": ka, "slow_write": delay})
     model = C.run_driver(ops)
     for op, m, i2 in zip(ops, model, impl):
         if " ".join(m.split()) != " ".join(i2.split()):
